@@ -60,10 +60,25 @@ func (s *supProbe) Init(args ...any) (act.SupervisorSpec, error) {
 	return s.spec, nil
 }
 
+// startChildren: simple-one-for-one children are started on demand
+type startChildren struct {
+	Name gen.Atom
+	N    int
+	Done chan error
+}
+
 func (s *supProbe) HandleMessage(from gen.PID, message any) error {
 	x := s.I.Enter("msg")
 	defer s.I.Exit(x)
 	s.I.Set(x, func(e *actors.Ev) { e.From = from; e.Msg = message })
+	if m, ok := message.(startChildren); ok {
+		var err error
+		for k := 0; k < m.N && err == nil; k++ {
+			err = s.StartChild(m.Name)
+		}
+		m.Done <- err
+		return nil
+	}
 	return handleCommon(message)
 }
 
@@ -165,7 +180,7 @@ func runBehaviour(c bcase, scenario string) {
 		}
 	} else {
 		spec := act.SupervisorSpec{
-			Type: map[string]act.SupervisorType{"sup-ofo": act.SupervisorTypeOneForOne, "sup-afo": act.SupervisorTypeAllForOne, "sup-rfo": act.SupervisorTypeRestForOne}[c.kind],
+			Type: map[string]act.SupervisorType{"sup-ofo": act.SupervisorTypeOneForOne, "sup-sofo": act.SupervisorTypeSimpleOneForOne, "sup-afo": act.SupervisorTypeAllForOne, "sup-rfo": act.SupervisorTypeRestForOne}[c.kind],
 			Children: []act.SupervisorChildSpec{
 				{Name: gen.Atom(fmt.Sprintf("c05a_%d", seq)), Factory: childF},
 				{Name: gen.Atom(fmt.Sprintf("c05b_%d", seq)), Factory: childF},
@@ -173,6 +188,10 @@ func runBehaviour(c bcase, scenario string) {
 			},
 			Restart:             act.SupervisorRestart{Strategy: act.SupervisorStrategyTemporary},
 			DisableAutoShutdown: true,
+		}
+		if c.kind == "sup-sofo" {
+			spec.Type = act.SupervisorTypeSimpleOneForOne
+			spec.Children = spec.Children[:1]
 		}
 		f = func() gen.ProcessBehavior { return &supProbe{I: inst, spec: spec, tp: c.tp} }
 	}
@@ -192,6 +211,23 @@ func runBehaviour(c bcase, scenario string) {
 			n.Kill(k.PID)
 		}
 	}()
+	if c.kind == "sup-sofo" {
+		hk.WaitUntil(10*time.Second, v.idle)
+		sd := make(chan error, 1)
+		n.Send(pid, startChildren{Name: gen.Atom(fmt.Sprintf("c05a_%d", seq)), N: 3, Done: sd})
+		select {
+		case err := <-sd:
+			if err != nil {
+				r.incon = "start children: " + err.Error()
+			}
+		case <-time.After(10 * time.Second):
+			r.incon = "watchdog: start children"
+		}
+		if r.incon != "" {
+			finish(id, scenario, id, false, 0, r, nil)
+			return
+		}
+	}
 	if !hk.WaitUntil(10*time.Second, func() bool {
 		if !v.idle() || len(kidsNow()) < 3 {
 			return false
@@ -222,8 +258,15 @@ func runBehaviour(c bcase, scenario string) {
 	}
 	fired := true
 	var b *block
-	if c.pos == "child-busy" {
-		b = &block{Entered: make(chan struct{}), Release: make(chan struct{})}
+	var busy *actors.Inst // the child parked in a handler
+	busyOwn := ""         // the cause by which the parked child dies on its own
+	if strings.HasPrefix(c.pos, "child-busy") {
+		th := strings.TrimPrefix(strings.TrimPrefix(c.pos, "child-busy"), "-")
+		busyOwn = th
+		if th == "err" {
+			busyOwn = "err"
+		}
+		b = &block{Entered: make(chan struct{}), Release: make(chan struct{}), Then: th}
 		if c.kind == "pool" {
 			n.Send(pid, *b) // forwarded to a worker
 		} else {
@@ -231,6 +274,11 @@ func runBehaviour(c bcase, scenario string) {
 		}
 		select {
 		case <-b.Entered:
+			for _, k := range kidsNow() {
+				if k.InCallback() {
+					busy = k
+				}
+			}
 		case <-time.After(5 * time.Second):
 			r.incon = "gate: child handler never entered"
 			fired = false
@@ -256,6 +304,11 @@ func runBehaviour(c bcase, scenario string) {
 			k := kidsNow()[1]
 			killedKid[k.PID] = true
 			n.Kill(k.PID)
+		case "busykill": // the parked child is killed: it dies for its own reason and never handles the forwarded exit
+			if busy != nil {
+				killedKid[busy.PID] = true
+				n.Kill(busy.PID)
+			}
 		default:
 			issueAct(v, nil, a)
 		}
@@ -264,6 +317,18 @@ func runBehaviour(c bcase, scenario string) {
 		if v.fatalIssued() {
 			// the supervisor is waiting for its children (the pool is already gone): bounded chance for a wrong early terminate
 			probeEarlyTerminate(v, 20*time.Millisecond)
+			if busy != nil && (busyOwn != "" || killedKid[busy.PID]) {
+				// make the parked child the LAST one to die (bounded, decides nothing): the supervisor then
+				// finishes its shutdown on the exit of a child that died for its own reason
+				hk.WaitUntil(2*time.Second, func() bool {
+					for _, k := range kidsNow() {
+						if k != busy && k.TermCount.Load() == 0 {
+							return false
+						}
+					}
+					return true
+				})
+			}
 		}
 		close(b.Release)
 	}
@@ -317,6 +382,9 @@ func runBehaviour(c bcase, scenario string) {
 			if killedKid[k.PID] {
 				kv.issued = append(kv.issued, issue{C: "kill", Fatal: true})
 			}
+			if k == busy && busyOwn != "" {
+				kv.issued = append(kv.issued, issue{C: busyOwn, Fatal: true})
+			}
 			judgeChild(kv, v, r)
 			events += int64(len(k.Events()))
 		}
@@ -359,6 +427,11 @@ func judgeChild(kv *victim, parent *victim, r *result) {
 		if x.C == "kill" && term.Err == gen.TerminateReasonKill {
 			ok = true
 		}
+		if x.C == "err" || x.C == "panic" { // the child's own handler error / panic
+			if causeTable[x.C].cb(term.Err) {
+				ok = true
+			}
+		}
 		if strings.HasPrefix(x.C, "child:") {
 			if want := causeTable[strings.TrimPrefix(x.C, "child:")].obs; errors.Is(term.Err, want) {
 				ok = true
@@ -377,7 +450,23 @@ func behaviourCases() []bcase {
 		{"herrmsg", "kill"}, {"nexit", "kill"}, {"kill", "nexit"}, {"nexit", "fexit"}, {"fexit", "nexit"}, {"herrmsg", "nexit"},
 		{"hpanicmsg", "kill2"}, {"childkill", "nexit"}, {"nexit", "childkill", "kill"}, {"fexit", "herrmsg", "kill"},
 	}
-	for _, kind := range []string{"sup-ofo", "sup-afo", "sup-rfo", "pool"} {
+	for _, kind := range []string{"sup-ofo", "sup-afo", "sup-rfo", "sup-sofo", "pool"} {
+		// the parent is shutting down for R1 while its last child dies for its own reason (handler error, panic, Kill):
+		// the parent's reason stays R1
+		for _, rn := range []string{"normal", "shutdown", "kill", "panic", "custom"} {
+			for _, src := range []string{"nexit", "fexit"} {
+				cs = append(cs,
+					bcase{"B", kind, "child-busy-err", []string{src + "=" + rn}, false},
+					bcase{"B", kind, "child-busy-panic", []string{src + "=" + rn}, false},
+					bcase{"B", kind, "child-busy", []string{src + "=" + rn, "busykill"}, false})
+			}
+		}
+		for _, s := range [][]string{{"herrmsg"}, {"hpanicmsg"}} {
+			cs = append(cs,
+				bcase{"B", kind, "child-busy-err", s, false},
+				bcase{"B", kind, "child-busy-panic", s, false},
+				bcase{"B", kind, "child-busy", append(append([]string{}, s...), "busykill"), false})
+		}
 		for _, pos := range []string{"idle", "child-busy"} {
 			for _, s := range seqs {
 				cs = append(cs, bcase{"B", kind, pos, s, false})
